@@ -59,3 +59,11 @@ package common
 //@   noreturn
 //@   pure
 //@   trusted
+
+// WriteFileAtomic against a ghost file system `fs` (path -> content): the rename is the last effect; an error
+// before it leaves filePath untouched.
+//@ func WriteFileAtomic
+//@   props C03 C06
+//@   assigns  fs
+//@   ensures  [durable-on-success] result == nil ==> fs[filePath] == newBytes
+//@   ensures  [untouched-on-error] result != nil ==> fs[filePath] == old(fs)[filePath]
